@@ -22,6 +22,11 @@ def place_hostile(rnd, g):
             args = []
         name = '$CUTIF' if rnd.random() < 0.5 else S.escaped_spelling('$CUTIF', rnd, 0.3)
         goal = ('call', name, args)
+        if rnd.random() < 0.35:
+            # ... or as a goal *term* handed to a meta-call whose argument is known at compile time
+            term = ('F', name, args) if args else ('A', name)
+            goal = rnd.choice([('call', 'call', [term]), ('call', 'once', [term]), ('call', 'findall', [('A', 'x'), term, ('_',)]),
+                               ('call', 'call', [('F', 'call', [term])]), ('call', 'call', [('A', name)] + args)])
         body = rnd.choice([goal, ('conj', ('call', 'q', []), goal), ('disj', ('ite', ('call', 'q', []), goal), 'tru'), ('neg', goal)])
         return ('p', [], body, True), pos, h
     if pos == 'fact-arg':
